@@ -718,6 +718,58 @@ func flags(repo string) []flag {
 		}
 		add("badSourceIsIgnored", ok, "")
 	}
+	// proxy.emptyNextIsNoRoute: the only indexing of ProxyNext by its length sits under `len(ProxyNext) > 0`
+	{
+		fd := px.fn("Proxy", "forwardRpc")
+		guarded, bare := 0, 0
+		var walk func(n ast.Node, under bool)
+		walk = func(n ast.Node, under bool) {
+			if n == nil {
+				return
+			}
+			if is, ok := n.(*ast.IfStmt); ok {
+				u := under || str(is.Cond) == "len(rpc.Header.ProxyNext) > 0"
+				if is.Init != nil {
+					walk(is.Init, under)
+				}
+				walk(is.Cond, under)
+				walk(is.Body, u)
+				if is.Else != nil {
+					walk(is.Else, under)
+				}
+				return
+			}
+			switch x := n.(type) {
+			case *ast.IndexExpr:
+				if str(x.X) == "rpc.Header.ProxyNext" {
+					if under {
+						guarded++
+					} else {
+						bare++
+					}
+				}
+			case *ast.SliceExpr:
+				if str(x.X) == "rpc.Header.ProxyNext" {
+					if under {
+						guarded++
+					} else {
+						bare++
+					}
+				}
+			}
+			ast.Inspect(n, func(c ast.Node) bool {
+				if c == nil || c == n {
+					return true
+				}
+				walk(c, under)
+				return false
+			})
+		}
+		if fd != nil {
+			walk(fd.Body, false)
+		}
+		add("emptyNextIsNoRoute", fd != nil && guarded >= 1 && bare == 0, "")
+	}
 	// proxy.enqueueNonBlocking
 	{
 		fd := px.fn("Proxy", "forwardRpc")
